@@ -9,10 +9,23 @@
 //! pair <hex a> <hex b>  -> same | differ a=<span-free summary> b=<span-free summary>
 //! front <hex text>      -> as `src`, but an accepted text is not run: stage=accepted warns=<…>
 //! ```
-//! `gen --kind progs|layouts|mutants`: program texts from `progen`; re-layouts of them (same tokens,
-//! other separators, comments, CR/LF/CRLF, multi-word keywords re-spaced) as `pair` requests;
-//! byte-level mutants (mostly rejected) to exercise the syntax/semantic stages.
+//! `gen --kind progs|layouts|mutants|parens|static|recfns`: program texts from `progen`; re-layouts of
+//! them (same tokens, other separators, comments, CR/LF/CRLF, multi-word keywords re-spaced) as `pair`
+//! requests; token-level mutants (mostly rejected) to exercise the syntax/semantic stages; `parens` =
+//! `pair`s of a program and the same tokens with REDUNDANT PARENTHESES around primaries in every
+//! syntactic position (operand of a unary operator, head of a postfix chain, callee, argument, index,
+//! element …); `static` = `front` requests biased to the static rules (C09): every rule category
+//! injected in every nesting context, and string templates (placeholders next to `{{` / `}}`, doubled
+//! braces, placeholders naming undeclared / out-of-scope / later-declared variables); `recfns` =
+//! `front` requests with (mutually) recursive functions whose return value combines call results with
+//! literals of other types (return-type inference must terminate, C07).
 //! Oracle (no model): the two members of a `pair` must behave alike → `ORACLE-FAIL … [C10]`.
+//!
+//! `run` answers every case inside a WORKER subprocess (`nvh pipe worker`, see `supervise`): a case
+//! that does not return (no answer after `CPU_LIMIT_MS` of the worker's CPU time) or that kills the
+//! process (abort on `memory allocation failed`, stack overflow) is answered `stage=hang` /
+//! `stage=abort:<status>` and reported as `ORACLE-FAIL <line> [C07] …`; a fresh worker continues with
+//! the next request. `run --inproc` answers in-process (no isolation).
 
 use std::io::{BufRead, BufReader, Write};
 use std::sync::Mutex;
@@ -33,9 +46,11 @@ use crate::{lex, pipeline};
 pub fn main(args: &[String]) -> i32 {
     match args.first().map(String::as_str) {
         Some("gen") => generate(&args[1..]),
-        Some("run") => run(),
+        Some("run") if util::flag(&args[1..], "--inproc") => worker(&args[1..]),
+        Some("run") => supervise(&["pipe", "worker"], "pipeline", &|_line, what| format!("stage={what}")),
+        Some("worker") => worker(&args[1..]),
         _ => {
-            eprintln!("usage: nvh pipe gen --seed S --n N --kind progs|layouts|mutants | nvh pipe run < requests");
+            eprintln!("usage: nvh pipe gen --seed S --n N --kind progs|layouts|mutants|parens|static|recfns | nvh pipe run [--inproc] < requests");
             2
         }
     }
@@ -195,7 +210,7 @@ fn answer(line: &str, lineno: usize) -> String {
                         if sx == sy {
                             "same".into()
                         } else {
-                            eprintln!("ORACLE-FAIL {lineno} [C10] two layouts of the same tokens behave differently: {sx} vs {sy}");
+                            eprintln!("ORACLE-FAIL {lineno} [C10] two texts that differ only in layout / redundant parentheses behave differently: {sx} vs {sy}");
                             // panic sites differ in detail between model and implementation summaries
                             format!("differ a={sx} b={sy}")
                         }
@@ -209,7 +224,11 @@ fn answer(line: &str, lineno: usize) -> String {
     }
 }
 
-fn run() -> i32 {
+/// Answers request lines one by one (flushing each answer): the body of a supervised worker, and of
+/// `run --inproc`. `--base N`: the 1-based line number of the first request minus one.
+fn worker(args: &[String]) -> i32 {
+    let base = util::opt_u64(args, "--base", 0) as usize;
+    limit_address_space();
     // `shout` writes to the real stdout: answers go to a copy of fd 1, then fd 1 becomes /dev/null
     // … and `read_line` reads the real stdin: requests come from a copy of fd 0, then fd 0 is /dev/null
     let (req_fd, ans_fd) = unsafe {
@@ -223,19 +242,186 @@ fn run() -> i32 {
     };
     use std::os::fd::FromRawFd;
     let req = unsafe { std::fs::File::from_raw_fd(req_fd) };
-    let mut ans = std::io::BufWriter::new(unsafe { std::fs::File::from_raw_fd(ans_fd) });
+    let mut ans = unsafe { std::fs::File::from_raw_fd(ans_fd) };
     std::panic::set_hook(Box::new(|info| {
         if let Some(l) = info.location() {
             *LAST_PANIC.lock().unwrap() = format!("{}:{}", file_stem(l.file()), l.line());
         }
     }));
     for (i, line) in BufReader::new(req).lines().map_while(Result::ok).enumerate() {
-        let a = answer(&line, i + 1);
-        if ans.write_all(a.as_bytes()).is_err() || ans.write_all(b"\n").is_err() {
+        let mut a = answer(&line, base + i + 1);
+        a.push('\n');
+        if ans.write_all(a.as_bytes()).is_err() {
             return 1;
         }
     }
-    let _ = ans.flush();
+    0
+}
+
+// ------------------------------------------------------------------- supervised workers (hang oracle)
+
+/// CPU time a worker may spend on ONE request before the case is declared a hang. Measured on the
+/// worker's own clock (`/proc/<pid>/stat`), so a loaded machine cannot turn a slow case into a hang.
+pub const CPU_LIMIT_MS: u64 = 4000;
+/// Wall-clock bound for one request (a worker that neither computes nor answers).
+pub const WALL_LIMIT_MS: u64 = 120_000;
+/// After this many hang / abort cases in one run the remaining requests are answered `unrun` (each
+/// such case costs seconds; the check already has its failing inputs).
+pub const MAX_FAILS: usize = 4;
+/// Address-space cap of a worker: a runaway allocation ends in `memory allocation failed` (abort)
+/// instead of taking the machine down. The two 64 MiB arenas of a case are far below it.
+const WORKER_AS_LIMIT: u64 = 8 << 30;
+
+pub fn limit_address_space() {
+    let lim = libc::rlimit { rlim_cur: WORKER_AS_LIMIT, rlim_max: WORKER_AS_LIMIT };
+    unsafe {
+        libc::setrlimit(libc::RLIMIT_AS, &lim);
+    }
+}
+
+struct Kid {
+    child: std::process::Child,
+    stdin: std::process::ChildStdin,
+    out: std::process::ChildStdout,
+    buf: Vec<u8>,
+}
+
+enum Got {
+    Line(String),
+    Died,
+    Hang(String),
+}
+
+/// utime + stime of a process in milliseconds (None once it is gone).
+fn cpu_ms(pid: u32) -> Option<u64> {
+    let stat = std::fs::read_to_string(format!("/proc/{pid}/stat")).ok()?;
+    let rest = &stat[stat.rfind(')')? + 1..];
+    let f: Vec<&str> = rest.split_whitespace().collect();
+    let ticks = f.get(11)?.parse::<u64>().ok()? + f.get(12)?.parse::<u64>().ok()?;
+    let hz = unsafe { libc::sysconf(libc::_SC_CLK_TCK) }.max(1) as u64;
+    Some(ticks * 1000 / hz)
+}
+
+impl Kid {
+    fn spawn(worker_args: &[&str], base: usize) -> Kid {
+        use std::process::{Command, Stdio};
+        let exe = std::env::current_exe().expect("current_exe");
+        let mut child = Command::new(exe)
+            .args(worker_args)
+            .args(["--base", &base.to_string()])
+            .env("RUST_BACKTRACE", "0")
+            .stdin(Stdio::piped())
+            .stdout(Stdio::piped())
+            .stderr(Stdio::inherit())
+            .spawn()
+            .expect("spawn worker");
+        let stdin = child.stdin.take().unwrap();
+        let out = child.stdout.take().unwrap();
+        Kid { child, stdin, out, buf: Vec::new() }
+    }
+
+    fn send(&mut self, line: &str) -> bool {
+        self.stdin.write_all(line.as_bytes()).and_then(|()| self.stdin.write_all(b"\n")).and_then(|()| self.stdin.flush()).is_ok()
+    }
+
+    /// The next answer line, or why there is none.
+    fn answer(&mut self) -> Got {
+        use std::io::Read;
+        use std::os::fd::AsRawFd;
+        let start = std::time::Instant::now();
+        let mut cpu0: Option<u64> = None;
+        let mut tmp = [0u8; 1 << 16];
+        loop {
+            if let Some(p) = self.buf.iter().position(|b| *b == b'\n') {
+                let rest = self.buf.split_off(p + 1);
+                let mut line = std::mem::replace(&mut self.buf, rest);
+                line.pop();
+                return Got::Line(String::from_utf8_lossy(&line).into_owned());
+            }
+            let mut fds = libc::pollfd { fd: self.out.as_raw_fd(), events: libc::POLLIN, revents: 0 };
+            let r = unsafe { libc::poll(&mut fds, 1, 200) };
+            if r > 0 {
+                match self.out.read(&mut tmp) {
+                    Ok(0) | Err(_) => return Got::Died,
+                    Ok(n) => self.buf.extend_from_slice(&tmp[..n]),
+                }
+            } else if r == 0 {
+                // still no answer: how much has the worker computed since we first looked?
+                if let Some(now) = cpu_ms(self.child.id()) {
+                    match cpu0 {
+                        None => cpu0 = Some(now),
+                        Some(c0) if now.saturating_sub(c0) >= CPU_LIMIT_MS => {
+                            return Got::Hang(format!("no answer after {} ms of CPU time", now - c0));
+                        }
+                        Some(_) => {}
+                    }
+                }
+                if start.elapsed().as_millis() as u64 >= WALL_LIMIT_MS {
+                    return Got::Hang(format!("no answer after {} s", WALL_LIMIT_MS / 1000));
+                }
+            }
+        }
+    }
+}
+
+/// `run` of a family whose cases may not return: feeds the request lines on stdin one at a time to a
+/// child `nvh <worker_args> --base <lines answered so far>` (which answers one line per request on
+/// its stdout and writes its own `ORACLE-FAIL` lines to the inherited stderr). A request on which
+/// the child hangs or dies is answered `fail_answer(request, "hang" | "abort:<status>")`, reported
+/// as `ORACLE-FAIL <line> [C07] …`, and a fresh child takes over. `stage`: what is being run, for
+/// the message.
+pub fn supervise(worker_args: &[&str], stage: &str, fail_answer: &dyn Fn(&str, &str) -> String) -> i32 {
+    let stdin = std::io::stdin();
+    let mut out = std::io::BufWriter::new(std::io::stdout());
+    let mut kid: Option<Kid> = None;
+    let mut fails = 0usize;
+    let mut unrun = 0usize;
+    for (i, line) in stdin.lock().lines().map_while(Result::ok).enumerate() {
+        let ans = if fails >= MAX_FAILS {
+            unrun += 1;
+            "unrun".to_string()
+        } else {
+            let k = kid.get_or_insert_with(|| Kid::spawn(worker_args, i));
+            let got = if k.send(&line) { k.answer() } else { Got::Died };
+            match got {
+                Got::Line(a) => a,
+                Got::Died => {
+                    fails += 1;
+                    let mut k = kid.take().unwrap();
+                    let status = k.child.wait().map_or("?".to_string(), |s| {
+                        use std::os::unix::process::ExitStatusExt;
+                        match (s.signal(), s.code()) {
+                            (Some(sig), _) => format!("signal{sig}"),
+                            (None, Some(c)) => format!("exit{c}"),
+                            _ => "?".to_string(),
+                        }
+                    });
+                    eprintln!("ORACLE-FAIL {} [C07] the {stage} killed the process on this input ({status}): neither diagnostics nor a program", i + 1);
+                    fail_answer(&line, &format!("abort:{status}"))
+                }
+                Got::Hang(why) => {
+                    fails += 1;
+                    let mut k = kid.take().unwrap();
+                    let _ = k.child.kill();
+                    let _ = k.child.wait();
+                    eprintln!("ORACLE-FAIL {} [C07] the {stage} did not return on this input ({why}; worker killed)", i + 1);
+                    fail_answer(&line, "hang")
+                }
+            }
+        };
+        if out.write_all(ans.as_bytes()).is_err() || out.write_all(b"\n").is_err() {
+            return 1;
+        }
+    }
+    let _ = out.flush();
+    if unrun > 0 {
+        eprintln!("SUPERVISOR {unrun} requests not run after {MAX_FAILS} hang/abort cases");
+    }
+    if let Some(k) = kid.take() {
+        let Kid { mut child, stdin, .. } = k;
+        drop(stdin);
+        let _ = child.wait();
+    }
     0
 }
 
@@ -342,6 +528,212 @@ fn layout(rng: &mut Rng, toks: &[(String, String)], style: u64) -> String {
     s
 }
 
+// ------------------------------------------------------------------ C09: string templates product
+
+/// Template texts around the placeholder name `N` (`M` = a second name that is always declared).
+/// `{{` / `}}` are the escapes for a literal brace and mean nothing inside a placeholder. The list
+/// mixes shapes in which `N` IS a placeholder (plain, wrapped in / followed by / preceded by escapes,
+/// padded, after malformed groups) with shapes in which it is text (`{{N}}`, `{N`, `{N.x}` …): the
+/// composed model decides which is which.
+const TEMPLATES: &[&str] = &[
+    "{N}", "{{{N}}}", "{N}}}", "{{{N}", "}}{N}{{", "{ N }", "{\tN }", "{{ {N} }}", "{{{{{N}}}}}", "{M}{N}", "{N}{M}",
+    "{{{M}}}{{{N}}}", "{M}}}{N}", "a {{b}} {N}", "{}{N}", "{1x}{N}}}", "{é}{N}", "{N}}", "}{N}", "{N}{", "{{{N}}}: {M}}}",
+    "{N}}}}}", "{{{{{{{N}}}}}}}", "é{N}ü", "{N}\\n{{", "{M} {N} {M}", "{N }}", "{N}}}{{{N}", "set = {{ {N}}}", "{{{M}: {N}}}",
+    "\\t{{{N}}}\\\"", "{ N}}}", "{{{N }}}",
+    // N is text here
+    "{{N}}", "{{{{N}}}}", "{{ N }}", "{N", "N}", "{N.x}", "{N M}", "{1N}", "{ñN}", "{x{N}}", "{{N}", "{{{{N}}", "{{N}} {M}",
+];
+
+/// What the name in the placeholder is, relative to the place of use.
+const STATUSES: &[&str] = &[
+    "outer", "inner", "undeclared", "sibling", "later", "later-outer", "param", "other-param", "nested-before", "loop-local",
+    "shadow", "fn-name", "builtin", "undeclared", "sibling", "later",
+];
+
+const CONTEXTS: &[&str] = &["top", "block", "then", "else", "loop", "fn", "fn-in-loop", "nested-fn", "fn-in-block", "loop-in-fn"];
+
+/// One program: a string template with a placeholder naming a variable of the chosen status, in
+/// the chosen syntactic position, inside the chosen nesting context.
+fn template_program(r: &mut Rng) -> String {
+    let status = *r.pick(STATUSES);
+    let ctx = *r.pick(CONTEXTS);
+    let in_fn = matches!(ctx, "fn" | "fn-in-loop" | "nested-fn" | "fn-in-block" | "loop-in-fn");
+    let inner_param = if ctx == "nested-fn" { "q" } else { "p" };
+    let v: String = match status {
+        "param" if in_fn => inner_param.to_string(),
+        "builtin" => (*r.pick(&["shout", "typeof", "len", "command"])).to_string(),
+        _ => (*r.pick(&["ghost", "v", "x1", "_u", "total", "i2"])).to_string(),
+    };
+    let shape = *r.pick(TEMPLATES);
+    let quote = if shape.contains("\\\"") || r.chance(4, 5) { '"' } else { '\'' };
+    let lit = format!("{quote}{}{quote}", shape.replace('N', &v).replace('M', "ok0"));
+    let lit = if r.chance(1, 6) {
+        // a second template in the same statement
+        let other = r.pick(TEMPLATES).replace('N', &v).replace('M', "ok0").replace("\\\"", "");
+        format!("{lit} add \"{other}\"")
+    } else {
+        lit
+    };
+    let use_stmt = match r.below(if in_fn { 14 } else { 13 }) {
+        0 | 1 => format!("shout({lit})"),
+        2 => format!("make s9 get {lit}\nshout(s9)"),
+        3 => format!("make s9 get \"\"\ns9 get {lit}\nshout(s9)"),
+        4 => format!("shout(({lit}).len())"),
+        5 => format!("shout(\"abc\".find({lit}))"),
+        6 => format!("make a9 get []\na9.push({lit})\nshout(a9)"),
+        7 => format!("shout([1, {lit}, ok0])"),
+        8 => format!("make a9 get [1, 2, 3]\nshout(a9[({lit}).len() mod 3])"),
+        9 => format!("shout(to_string({lit}))"),
+        10 => format!("shout({lit} add \"!\")"),
+        11 => format!("if to say ({lit} na \"x\") start\n    shout(1)\nend"),
+        12 => format!("make k9 get 0\njasi (k9 small pass 1 and not ({lit} na \"\")) start\n    k9 get k9 add 1\nend"),
+        _ => format!("return {lit}"),
+    };
+    let decl = |val: &str| format!("make {v} get {val}");
+    let (mut pre, mut in_pre, mut in_post, mut post) = (String::new(), String::new(), String::new(), String::new());
+    match status {
+        "outer" => pre = decl("1"),
+        "inner" => in_pre = decl("\"in\""),
+        "sibling" => pre = format!("start\n    {}\n    shout({v})\nend", decl("1")),
+        "later" => in_post = format!("{}\nshout({v})", decl("2")),
+        "later-outer" => post = format!("{}\nshout({v})", decl("3")),
+        "other-param" => pre = format!("do other9({v}) start\n    return {v}\nend\nshout(other9(1))"),
+        "nested-before" => in_pre = format!("start\n    {}\n    shout({v})\nend", decl("4")),
+        "loop-local" => {
+            in_pre = format!("make j9 get 0\njasi (j9 small pass 1) start\n    {}\n    shout({v})\n    j9 get j9 add 1\nend", decl("5"))
+        }
+        "shadow" => {
+            pre = decl("1");
+            in_pre = format!("start\n    {}\n    shout({v})\nend", decl("\"sh\""));
+        }
+        "fn-name" => pre = format!("do {v}() start\n    return 1\nend\nshout({v}())"),
+        _ => {} // undeclared, builtin, param
+    }
+    let body = [in_pre.as_str(), use_stmt.as_str(), in_post.as_str()].iter().filter(|x| !x.is_empty()).cloned().collect::<Vec<_>>().join("\n");
+    let wrapped = match ctx {
+        "top" => body,
+        "block" => format!("start\n{body}\nend"),
+        "then" => format!("if to say (ok0 na 7) start\n{body}\nend"),
+        "else" => format!("if to say (ok0 na 8) start\n    shout(0)\nend if not so start\n{body}\nend"),
+        "loop" => format!("make i9 get 0\njasi (i9 small pass 2) start\n{body}\ni9 get i9 add 1\nend"),
+        "fn" => format!("do fn9(p) start\n{body}\nend\nshout(fn9(1))"),
+        "fn-in-loop" => format!("make i9 get 0\njasi (i9 small pass 2) start\ndo fn9(p) start\n{body}\nend\nshout(fn9(i9))\ni9 get i9 add 1\nend"),
+        "nested-fn" => format!("do out9(p) start\ndo in9(q) start\n{body}\nend\nreturn in9(p)\nend\nshout(out9(1))"),
+        "fn-in-block" => format!("start\ndo fn9(p) start\n{body}\nend\nshout(fn9(2))\nend"),
+        _ => format!("do fn9(p) start\nmake i9 get 0\njasi (i9 small pass 2) start\n{body}\ni9 get i9 add 1\nend\nreturn i9\nend\nshout(fn9(1))"),
+    };
+    ["make ok0 get 7", pre.as_str(), wrapped.as_str(), post.as_str()].iter().filter(|x| !x.is_empty()).cloned().collect::<Vec<_>>().join("\n")
+}
+
+/// `--kind static`: texts biased to the static rules.
+fn static_program(r: &mut Rng) -> String {
+    match r.below(12) {
+        0..=4 => template_program(r),
+        5..=7 => {
+            // one injected violation of one rule at a random opportunity, any nesting context
+            let at = r.below(40) as i64;
+            crate::resolve::gen_program(r, Some(at), false).0
+        }
+        8 | 9 => crate::resolve::gen_program(r, None, false).0,
+        10 => crate::resolve::gen_program(r, None, true).0,
+        _ => crate::resolve::gen_rec_program(r, false),
+    }
+}
+
+// ------------------------------------------------------------------ C10: redundant parentheses
+
+/// Self-contained statements in which a unary operator is applied to a postfix chain (member call,
+/// index, call): the head of such a chain is a primary, so parentheses around it are redundant.
+const UNARY_POSTFIX: &[&str] = &[
+    "make uq1 get 3.5\nshout(minus uq1.abs())",
+    "make uq2 get [4, 5]\nshout(minus uq2[1])",
+    "make uq3 get [true, false]\nshout(not uq3[1])",
+    "do uq4(z) start\n    return z add 1\nend\nshout(minus uq4(1))",
+    "make uq5 get \"hello\"\nshout(minus uq5.len())",
+    "shout(minus 2.5.abs().sqrt())",
+    "make uq6 get [[1, 2], [3]]\nshout(minus uq6[0][1])\nshout(not uq6[1].len() na 1)",
+    "make uq7 get [\"ab\", \"c\"]\nshout(minus uq7[0].len() add uq7.len())",
+    "do uq8() start\n    return [false]\nend\nshout(not uq8()[0])",
+    "make uq9 get 2\nshout(1 minus minus uq9.abs() times 3)",
+];
+
+/// The token list with redundant parentheses around primaries: every literal, and every identifier
+/// in expression position (after `(`, `[`, `,`, `get`, `return` or an operator; never a declared
+/// name, a parameter, a member name or the head of a statement). A primary under a unary operator
+/// or at the head of a postfix chain is wrapped most often. None when there is nothing to wrap.
+fn wrap_primaries(r: &mut Rng, toks: &[(String, String)]) -> Option<Vec<(String, String)>> {
+    let kind = |i: usize| toks.get(i).map_or("", |t| t.0.as_str());
+    let mut cand: Vec<(usize, bool)> = Vec::new();
+    let mut in_params = false;
+    for i in 0..toks.len() {
+        let k = kind(i);
+        if k == "lparen" && i >= 2 && kind(i - 2) == "do" && kind(i - 1) == "ident" {
+            in_params = true;
+            continue;
+        }
+        if in_params {
+            in_params = k != "rparen";
+            continue;
+        }
+        let prev = if i > 0 { kind(i - 1) } else { "" };
+        let next = kind(i + 1);
+        let expr_pos = matches!(
+            prev,
+            "lparen" | "lbracket" | "comma" | "get" | "return" | "add" | "minus" | "times" | "divide" | "mod" | "and" | "or" | "not"
+                | "na" | "pass" | "smallpass"
+        );
+        let primary = match k {
+            "num" | "str" | "true" | "false" | "null" => expr_pos,
+            "ident" => expr_pos && next != "get",
+            _ => false,
+        };
+        if primary {
+            let hot = matches!(prev, "minus" | "not") || matches!(next, "dot" | "lbracket" | "lparen");
+            cand.push((i, hot));
+        }
+    }
+    if cand.is_empty() {
+        return None;
+    }
+    let forced = r.below(cand.len() as u64) as usize;
+    let mut out = Vec::with_capacity(toks.len() + 8);
+    let mut ci = 0;
+    for (i, t) in toks.iter().enumerate() {
+        let mut depth = 0;
+        if ci < cand.len() && cand[ci].0 == i {
+            let (_, hot) = cand[ci];
+            if ci == forced || (hot && r.chance(1, 2)) || r.chance(1, 6) {
+                depth = if r.chance(1, 8) { 2 } else { 1 };
+            }
+            ci += 1;
+        }
+        for _ in 0..depth {
+            out.push(("lparen".to_string(), "(".to_string()));
+        }
+        out.push(t.clone());
+        for _ in 0..depth {
+            out.push(("rparen".to_string(), ")".to_string()));
+        }
+    }
+    Some(out)
+}
+
+/// No syntax diagnostic from the real parser (redundant parentheses are only redundant in a text that
+/// parses: inside error recovery a `)` is a synchronisation token).
+fn parses_clean(src: &str) -> bool {
+    util::catch(|| {
+        let arena = Arena::new(pipeline::ARENA_CAP).unwrap();
+        pipeline::with_parsed(src, &arena, |_, d| d.diagnostics.is_empty())
+    })
+    .unwrap_or(false)
+}
+
+/// `progs` (texts that are RUN on both sides) also carries the recursive-function families: they are accepted
+/// through dynamic typing and then compare / combine values of different run-time types (`[] pass []`,
+/// `true na 1`), which ends the real run with `rt:TypeMismatch@lo:hi` (the sites fixed for D-06); the pipe
+/// driver evaluates the fixed behaviour (`panics := false`) like `Driver/Run.lean`.
+const MIX_REC_INTO_PROGS: bool = true;
+
 fn generate(args: &[String]) -> i32 {
     let seed = util::opt_u64(args, "--seed", 1);
     let n = util::opt_u64(args, "--n", 500);
@@ -351,13 +743,63 @@ fn generate(args: &[String]) -> i32 {
     let opts = progen::GenOpts::default();
     let mut made = 0u64;
     let mut guard = 0u64;
+    // a second stream for what was added later (recursive-function cases mixed into `progs` /
+    // `mutants`): the programs drawn from `rng` are the same with and without the additions
+    let mut mix = Rng::new(seed ^ 0x4D49_58);
+    if !matches!(kind, "progs" | "layouts" | "mutants" | "parens" | "static" | "recfns") {
+        eprintln!("unknown --kind {kind}");
+        return 2;
+    }
     while made < n && guard < n * 20 {
         guard += 1;
         let mut r = rng.fork();
+        match kind {
+            "static" => {
+                out.line(&format!("front {}", util::hex(static_program(&mut r).as_bytes())));
+                made += 1;
+                continue;
+            }
+            "recfns" => {
+                out.line(&format!("front {}", util::hex(crate::resolve::gen_rec_program(&mut r, false).as_bytes())));
+                made += 1;
+                continue;
+            }
+            _ => {}
+        }
         let prog = progen::gen_program(&mut r, &opts);
         match kind {
             "progs" => {
-                out.line(&format!("src {}", util::hex(prog.as_bytes())));
+                if MIX_REC_INTO_PROGS && mix.chance(1, 12) {
+                    // (mutually) recursive functions whose result is compared / combined with literals of
+                    // other types, every one with a base case and called into: runs and terminates
+                    let rec = crate::resolve::gen_rec_program(&mut mix, true);
+                    let text = if mix.chance(1, 2) { rec } else { format!("{rec}\n{prog}") };
+                    out.line(&format!("src {}", util::hex(text.as_bytes())));
+                } else {
+                    out.line(&format!("src {}", util::hex(prog.as_bytes())));
+                }
+                made += 1;
+            }
+            "parens" => {
+                let text = if r.chance(1, 2) {
+                    let a = *r.pick(UNARY_POSTFIX);
+                    if r.chance(1, 3) { format!("{prog}\n{a}\n{}", r.pick(UNARY_POSTFIX).replace("uq", "ur")) } else { format!("{prog}\n{a}") }
+                } else {
+                    prog.clone()
+                };
+                let Some(toks) = lexemes(&text) else { continue };
+                let canon = layout(&mut r, &toks, 0);
+                match lexemes(&canon) {
+                    Some(l) if l.len() == toks.len() && l.iter().zip(&toks).all(|(a, b)| a.0 == b.0) => {}
+                    _ => continue,
+                }
+                if !parses_clean(&canon) {
+                    continue;
+                }
+                let Some(wrapped) = wrap_primaries(&mut r, &toks) else { continue };
+                let other = layout(&mut r, &wrapped, 0);
+                out.line(&format!("pair {} {}", util::hex(canon.as_bytes()), util::hex(other.as_bytes())));
+                out.line(&format!("src {}", util::hex(other.as_bytes())));
                 made += 1;
             }
             "layouts" => {
@@ -379,6 +821,14 @@ fn generate(args: &[String]) -> i32 {
                 made += 1;
             }
             _ => {
+                if mix.chance(1, 8) {
+                    // return-type inference over call cycles must terminate (C07)
+                    let rec = crate::resolve::gen_rec_program(&mut mix, false);
+                    let text = if mix.chance(1, 3) { format!("{prog}\n{rec}") } else { rec };
+                    out.line(&format!("front {}", util::hex(text.as_bytes())));
+                    made += 1;
+                    continue;
+                }
                 // mutants: delete / duplicate / replace one token or a few bytes (kept valid UTF-8)
                 let Some(toks) = lexemes(&prog) else { continue };
                 if toks.len() < 3 {
